@@ -1053,7 +1053,10 @@ def check_encoder(r, rule):
     where = wh(r, q, s.func.node)
     if not incs:
         # counting idiom: np.bincount(<map[char] for char in cdr3>, minlength=dimension)
-        z = strip_all(s.ret)
+        from ..rules import small_rewrites as _small
+        z = strip(rewrite(strip_all(s.ret), _small))
+        while is_mcall(z, "astype"):
+            z = strip(strip(z[1])[1])
         if is_call(z, "numpy.bincount") and z[2]:
             src = strip(z[2][0])
             while is_call(src) and head(strip(src[1])) == "glob" and strip(src[1])[1] in ("numpy.fromiter", "numpy.array", "numpy.asarray", "builtins.list") and src[2]:
@@ -1576,6 +1579,16 @@ def lower_bound(nn, q, t, facts):
             return math.ceil(lb) if lb > 0 else (1 if _positive(nn, q, t[2][0], facts) else math.ceil(lb))
         if n == "builtins.len":
             return facts.get(t, 0)
+        if n is not None and n in nn.P.functions:
+            # a helper introduced after the rules were validated: bound of its (inlined) return value
+            from ..rules import inline_new_helpers
+            inl = strip_all(inline_new_helpers(nn.r, strip_all(t)))
+            if inl != strip_all(t):
+                facts2 = {strip_all(k): v for k, v in facts.items()}
+                facts2.update(facts)
+                return lower_bound(nn, q, inl, facts2)
+    if head(t) == "ite":
+        return min(lower_bound(nn, q, t[2], facts), lower_bound(nn, q, t[3], facts))
     if head(t) == "bin":
         a, b = lower_bound(nn, q, t[2], facts), lower_bound(nn, q, t[3], facts)
         if t[1] == "+":
